@@ -46,7 +46,7 @@ Proof. exact line_number_crlf. Qed.
 Print Assumptions C17_line_number_crlf.
 
 Theorem C17_line_text_lf : forall content pre line post p, lf_file content = true -> is_line_at LF content pre line post p ->
-  (lead_blanks (firstn 197 line) < length (firstn 197 line))%nat ->
+  (lead_blanks line < length line)%nat ->
   source_substring content p = shown line.
 Proof. exact line_text_lf. Qed.
 Print Assumptions C17_line_text_lf.
@@ -58,7 +58,7 @@ Proof. exact caret_lf. Qed.
 Print Assumptions C17_caret_lf.
 
 Theorem C17_line_text_cr : forall content pre line post p, cr_file content = true -> is_line_at CR content pre line post p ->
-  (lead_blanks (firstn 197 line) < length (firstn 197 line))%nat ->
+  (lead_blanks line < length line)%nat ->
   source_substring content p = shown line.
 Proof. exact line_text_cr. Qed.
 Print Assumptions C17_line_text_cr.
